@@ -440,6 +440,58 @@ def tensor_product_stream(ctx, n):
                          r[1:3] if r[0] != "ok" else (r[1].array.shape, sorted(r[1]._covariant_indices), bool(r[1].array.shape == exp.shape and np.array_equal(r[1].array, exp))), replay=[desc])
 
 
+def list_mask_and_operand_stream(ctx, n):
+    """(a) boolean masks written as nested Python lists index like the same mask as an ndarray (values, class, index types);
+    (b) t - x, t + x for operands that are unsigned-integer arrays, boolean arrays or nested lists: the elementwise array result
+    (numpy's own: array - x) with the index types of t, for plain tensors, points and quadrics"""
+    import geometer as g
+    from geometer.base import Tensor
+    rng = ctx.rng
+    for k in range(n):
+        if k % 2 == 0:
+            shape = rng.choice([(2, 2, 3), (2, 3, 3), (3, 2, 2)])
+            mask = [[rng.random() < 0.5 for _ in range(shape[1])] for _ in range(shape[0])]
+            if not any(any(r) for r in mask):
+                mask[0][0] = True
+            arr = np.arange(int(np.prod(shape)), dtype=float).reshape(shape) + 1
+            kind = rng.choice(["points", "tensor"])
+            T = g.PointCollection(arr) if kind == "points" else Tensor(arr, covariant=[2])
+            desc = f"{kind} of shape {shape} indexed by the nested-list mask {mask}"
+            ctx.case(desc)
+            ctx.count("index:list-mask")
+            r = call_impl(lambda: (T[mask], T[np.array(mask)]))
+            ok = r[0] == "ok"
+            if ok:
+                a, b = r[1]
+                ok = type(a) is type(b) and np.array_equal(np.asarray(a.array), arr[np.array(mask)]) and a.tensor_shape == b.tensor_shape \
+                    and a.free_indices == b.free_indices and sorted(a._covariant_indices) == sorted(b._covariant_indices) \
+                    and sorted(a._covariant_indices) == [1] and a.free_indices == 1
+            if not ok:
+                ctx.disagree("C19:index:list-mask", desc, "the same as with the ndarray mask: one collection axis, covariant index 1",
+                             r[1:3] if r[0] != "ok" else (type(r[1][0]).__name__, r[1][0].tensor_shape, r[1][0].free_indices, sorted(r[1][0]._covariant_indices)), replay=[desc])
+        else:
+            kind = rng.choice(["tensor", "point", "quadric"])
+            if kind == "quadric":
+                base = np.diag([float(rng.randint(1, 3)), float(rng.randint(1, 3)), -float(rng.randint(1, 3))])
+                T = g.Conic(base)
+                raw = rng.choice([np.eye(3, dtype=np.uint8), np.eye(3, dtype=bool), [[1, 0, 0], [0, 1, 0], [0, 0, 1]], np.full((3, 3), 2, dtype=np.uint16)])
+            else:
+                base = np.array([float(rng.randint(-3, 3)), float(rng.randint(-3, 3)), 1.0])
+                T = g.Point(base) if kind == "point" else Tensor(base)
+                raw = rng.choice([np.array([1, 1, 0], dtype=np.uint8), [1, 2, 0], np.array([True, True, False]), np.array([3, 0, 0], dtype=np.uint32)])
+            desc = f"{kind} {base.tolist()} minus / plus the operand {np.asarray(raw).tolist()} of type {type(raw).__name__}:{getattr(raw, 'dtype', 'list')}"
+            ctx.case(desc)
+            ctx.count("arith:unsigned-bool-list:" + kind)
+            r = call_impl(lambda: (T - raw, T + raw))
+            exp_sub = base - np.asarray(raw).astype(float)
+            exp_add = base + np.asarray(raw).astype(float)
+            ok = r[0] == "ok" and np.allclose(np.asarray(r[1][0].array, dtype=float), exp_sub) and np.allclose(np.asarray(r[1][1].array, dtype=float), exp_add) \
+                and r[1][0].tensor_shape == T.tensor_shape
+            if not ok:
+                ctx.disagree("C19:arith:unsigned-bool-list:" + kind, desc, (exp_sub.tolist(), exp_add.tolist()),
+                             r[1:3] if r[0] != "ok" else (np.asarray(r[1][0].array).tolist(), np.asarray(r[1][1].array).tolist()), replay=[desc])
+
+
 def transformation_transpose(ctx, n):
     """`.T` / `transpose()` of transformation objects are the transposed tensors (the attribute must not be shadowed)"""
     import geometer as g
@@ -461,6 +513,7 @@ def transformation_transpose(ctx, n):
 
 
 def correspondence(ctx):
+    list_mask_and_operand_stream(ctx, ctx.budget(80, 800))
     tensor_product_stream(ctx, ctx.budget(120, 1200))
     transformation_transpose(ctx, ctx.budget(20, 100))
     tensor_arith(ctx, ctx.budget(400, 6000))
